@@ -24,7 +24,8 @@
 EXTENDS HQ
 
 CONSTANTS
-  WorkerCpus,      \* [w -> cpus]  (1/10000 units) workers connected from the start
+  WorkerCpus,      \* [w -> cpus]  (1/10000 units) every worker of the instance
+  LateWorkers,     \* the workers (a set of the highest ids) that are NOT connected at the start; they arrive one by one, lowest id first
   WorkerGroup,     \* [w -> group name]
   WorkerLife,      \* [w -> life time in hours, -1 = unlimited]
   MaxTicks,        \* number of hours that may pass
@@ -460,18 +461,22 @@ Commit(C, J) ==
 
 -----------------------------------------------------------------------------
 (* Initial state *)
+FreshSrv(w) == [kind |-> "sn", assigned |-> {}, prefilled |-> {}, free |-> <<WorkerCpus[w]>>, total |-> <<WorkerCpus[w]>>,
+                blocked |-> {}, stopping |-> FALSE, group |-> WorkerGroup[w], mn |-> 0, root |-> FALSE]
+FreshWk(w) == [running |-> {}, backlog |-> {}, blocked |-> {}, s2w |-> <<>>, w2s |-> <<>>, stopped |-> FALSE, remaining |-> WorkerLife[w]]
+LateSeq == SetToSortSeq(LateWorkers, <)
+
 Init ==
   /\ task = <<>> /\ redirect = <<>> /\ needSched = TRUE
   /\ queue = [rq \in 0..(Len(Classes) - 1) |-> [ready |-> {}, hasPrefill |-> FALSE, pprio |-> -1, pset |-> {}]]
-  /\ srv = [w \in DOMAIN WorkerCpus |-> [kind |-> "sn", assigned |-> {}, prefilled |-> {}, free |-> <<WorkerCpus[w]>>, total |-> <<WorkerCpus[w]>>,
-                                          blocked |-> {}, stopping |-> FALSE, group |-> WorkerGroup[w], mn |-> 0, root |-> FALSE]]
-  /\ wk = [w \in DOMAIN WorkerCpus |-> [running |-> {}, backlog |-> {}, blocked |-> {}, s2w |-> <<>>, w2s |-> <<>>, stopped |-> FALSE, remaining |-> WorkerLife[w]]]
-  /\ wkq = [w \in DOMAIN WorkerCpus |-> [rq \in 0..(Len(Classes) - 1) |-> <<>>]]
+  /\ srv = [w \in DOMAIN WorkerCpus \ LateWorkers |-> FreshSrv(w)]
+  /\ wk = [w \in DOMAIN WorkerCpus \ LateWorkers |-> FreshWk(w)]
+  /\ wkq = [w \in DOMAIN WorkerCpus \ LateWorkers |-> [rq \in 0..(Len(Classes) - 1) |-> <<>>]]
   /\ fut = {} /\ job = <<>> /\ streams = <<>> /\ now = 0 /\ classes = Classes
   /\ tinfo = <<>> /\ hist = <<>> /\ wstarts = <<>> /\ ranOk = {} /\ tstops = {} /\ cancelAck = <<>> /\ wCancel = {} /\ gaveBack = {}
   /\ nCompleted = <<>> /\ mustCrash = <<>> /\ mayCrash = <<>> /\ exceeded = {}
   /\ panic = "" /\ submitted = {} /\ armedFail = {} /\ drift = {} /\ journal = <<>> /\ late = {}
-  /\ budget = [losses |-> MaxLosses, cancels |-> MaxCancels, fails |-> MaxFails, launchFails |-> MaxLaunchFails, ticks |-> MaxTicks]
+  /\ budget = [losses |-> MaxLosses, cancels |-> MaxCancels, fails |-> MaxFails, launchFails |-> MaxLaunchFails, ticks |-> MaxTicks, connects |-> Cardinality(LateWorkers)]
 
 unchangedWorkerSide == UNCHANGED <<wkq, fut, wstarts, ranOk, tstops, wCancel, gaveBack, armedFail>>
 unchangedStatic == UNCHANGED <<streams, now, classes>>
@@ -891,6 +896,20 @@ SrvRecvStop(w) ==
   /\ UNCHANGED <<tinfo, submitted, cancelAck, wstarts, ranOk, tstops, armedFail, budget, mustCrash, mayCrash>> /\ unchangedStatic
 
 -----------------------------------------------------------------------------
+(* A new worker connects (reactor::on_new_worker): it is added to the worker map and scheduling is requested.  The        *)
+(* NewWorker broadcast to the other workers carries nothing the model keeps.                                             *)
+ConnectWorker ==
+  /\ panic = "" /\ budget.connects > 0
+  /\ LET w == LateSeq[Len(LateSeq) - budget.connects + 1] IN
+     /\ srv' = (w :> FreshSrv(w)) @@ srv
+     /\ wk' = (w :> FreshWk(w)) @@ wk
+     /\ wkq' = (w :> [rq \in 0..(Len(Classes) - 1) |-> <<>>]) @@ wkq
+  /\ needSched' = TRUE
+  /\ budget' = [budget EXCEPT !.connects = @ - 1]
+  /\ UNCHANGED <<task, queue, redirect, fut, job, tinfo, hist, wstarts, ranOk, tstops, cancelAck, wCancel, gaveBack, nCompleted, mustCrash, mayCrash,
+                 exceeded, panic, submitted, armedFail, drift, journal, late>> /\ unchangedStatic
+
+-----------------------------------------------------------------------------
 (* Worker loss (connection closed; fail = the loss counts as a crash of the tasks running there) *)
 LoseWorker(w, fail) ==
   /\ panic = "" /\ w \in DOMAIN srv /\ budget.losses > 0
@@ -921,6 +940,7 @@ Next ==
   \/ \E t \in DOMAIN task : ArmLaunchFail(t)
   \/ \E w \in DOMAIN srv : LoseWorker(w, TRUE) \/ LoseWorker(w, FALSE)
   \/ TimeTick
+  \/ ConnectWorker
 
 Spec == Init /\ [][Next]_mvars
 
